@@ -1,4 +1,6 @@
 import ComposeVerif.Lemmas.C01Pipeline
+import ComposeVerif.Model.C01Pipeline
+import ComposeVerif.Lemmas.C01PipeConv
 import ComposeVerif.Props.C01
 import ComposeVerif.Props.C04
 import ComposeVerif.Props.C11
@@ -27,7 +29,7 @@ ones here (from the owners' definitions, nothing added to their files) — and s
 | ExtendService / Merge | `Merge.extendService`, `Merge.merge` (C04) | `extendService_never_panics`, `merge_never_panics` | every pair of trees |
 | ApplyInclude | `C01.Inc.loadModel` (C01) | `include_terminates`, no panic constructor reachable (`Inc.loadModel_ne_panic`) | every file system |
 | EnforceUnicity (both runs) | `Unicity.enforceTop` (C04) | `enforceTop_never_panics` | every tree |
-| Canonical | `Short.canonical` (C03) | `canonical_only_panic_site` (here) | every tree: ok, err, or the ONE site `transformKeyValue` `e.(string)` — see below |
+| Canonical | `Short.canonical` (C03) | `canonical_never_panics` (here) | every tree (since the round-5 repair of `transformKeyValue`; before: ok, err, or that ONE site) |
 | OmitEmpty | `C01.omitEmptyTop` (C01) | `omitEmpty_total`, `omitEmpty_leaves_no_nil` | every tree |
 | SetDefaultValues | `C11.setDefaultValues` (C11) | `setDefaultValues_never_panics` (here) | every tree, every table |
 | validation.Validate | `Validate.validate` (C10) | `validate_only_panic_sites` (here) | every tree: ok, err, or one of THREE sites, each `schema`-guarded — see below |
@@ -35,9 +37,12 @@ ones here (from the owners' definitions, nothing added to their files) — and s
 | Normalize (+ normalizeNetworks, setNameFromKey) | `C11.normalize` (C11) | `normalize_never_panics` | every tree |
 
 Left to the site review (`Props/C01Sites.lean`) and the oracle, not to a theorem:
-* `transformKeyValue`'s `e.(string)`: reachable in the *model* of `Canonical` on any tree; in the pipeline the first
-  `EnforceUnicity` (its `keyValueIndexer` on the same pattern) rejects a non-string item before — row marked `code`.
-  (Seeded change C01-4 removed that rejection: caught by the oracle with a failing input.)
+* (until round 5: `transformKeyValue`'s `e.(string)` was reachable in the *model* of `Canonical` on any tree, and the
+  argument for the pipeline was "the first `EnforceUnicity` — its `keyValueIndexer` on the same pattern — rejects a
+  non-string item before".  Trying to PROVE that composition showed it false: `enforceUnicity` does not descend into
+  sequences, `transform` does and matches `*` against the `[]` step, so `services: [{build: {additional_contexts: [1]}}]`
+  with schema validation and extends skipped crashed the real loader.  Repaired in compose-go (`fix:` 717fb8d); the site
+  is gone from the code, from C03's model and from this statement.)
 * `checkFileObject` / `checkPath` / `checkDeviceRequest`: reachable on trees that did not pass the schema; in the pipeline
   `validation.Validate` runs under the same `!SkipValidation` test as `schema.Validate`, after it, and the schema allows
   only the asserted kind at the three patterns — rows marked `schema`, `Sites.schema_guards_hold`, `kindsAt_sound`.
@@ -59,15 +64,16 @@ theorem setDefaultValues_never_panics (tbl : List (List String × String)) (d : 
     C11.setDefaultValues tbl d ≠ .panic site :=
   setDefaults_never_panics tbl (.map d) TPath.root site
 
-/-- **Canonical**: on every tree the outcome is ok, err, or a panic at the single site `transformKeyValue` -/
-theorem canonical_only_panic_site (ign : Bool) (v : Val) (site : String)
-    (h : Short.canonical ign v = .panic site) : site = "transform.transformKeyValue" :=
-  transform_onlyKV ign v TPath.root site h
+/-- **Canonical**: on every tree, for either value of `ignoreParseError`, the outcome is ok or err -/
+theorem canonical_never_panics (ign : Bool) (v : Val) (site : String) : Short.canonical ign v ≠ .panic site :=
+  fun h => transform_onlyKV ign v TPath.root site h
 
-/-- … and that site needs a list with a non-string item under a `transformKeyValue` pattern: without one, no panic.
-(non-vacuity of the exception: the model does panic on `build.additional_contexts: [1]`) -/
+/-- the inputs that used to reach `e.(string)`: a non-string item under the `transformKeyValue` pattern, in a service
+of a mapping and in an element of a `services:` LIST (the shape `EnforceUnicity` never looks into) — errors now -/
 example : Short.canonical false (.map [("services", .map [("a", .map [("build", .map [("additional_contexts", .seq [.int 1])])])])])
-    = .panic "transform.transformKeyValue" := by rfl
+    = .err "type" := by rfl
+example : Short.canonical false (.map [("services", .seq [.map [("build", .map [("additional_contexts", .seq [.int 1])])]])])
+    = .err "type" := by rfl
 example : ∃ r, Short.canonical false (.map [("services", .map [("a", .map [("build", .map [("additional_contexts", .seq [.str "c=./d"])])])])])
     = .ok r := ⟨_, rfl⟩
 
@@ -77,15 +83,15 @@ theorem validate_only_panic_sites (t : Val) (site : String) (h : Validate.valida
     site ∈ ["validation.init.checkFileObject", "validation.checkPath", "validation.checkDeviceRequest"] :=
   validate_panic_site t site h
 
-/-- **the composition**: every stage that has a model is free of panics on EVERY tree — unconditionally for eleven
-stages, and up to the four named sites for `Canonical` and `validation.Validate` -/
+/-- **the composition**: every stage that has a model is free of panics on EVERY tree — unconditionally for twelve
+stages, and up to three named (schema-guarded) sites for `validation.Validate` -/
 theorem pipeline_stages_never_panic :
     (∀ raw s, convertTop raw ≠ .panic s) ∧
     (∀ c kvs s, Interp.interpolate c kvs ≠ .panic s) ∧
     (∀ base over s, Merge.extendService base over ≠ .panic s) ∧
     (∀ base over s, Merge.merge base over ≠ .panic s) ∧
     (∀ v s, Unicity.enforceTop v ≠ .panic s) ∧
-    (∀ ign v s, Short.canonical ign v = .panic s → s = "transform.transformKeyValue") ∧
+    (∀ ign v s, Short.canonical ign v ≠ .panic s) ∧
     (∀ pats m s, omitEmptyTop pats m ≠ .panic s) ∧
     (∀ tbl d s, C11.setDefaultValues tbl d ≠ .panic s) ∧
     (∀ t s, Validate.validate t = .panic s →
@@ -95,9 +101,164 @@ theorem pipeline_stages_never_panic :
     (∀ fs fuel main svcs name tr s, (Ext.resolve fs main fuel svcs name tr).1 ≠ .panic s) ∧
     (∀ fs fuel files inc s, Inc.loadModel fs fuel files inc ≠ .panic s) :=
   ⟨convertTop_total, interpolate_never_panics, C04.extendService_never_panics, C04.merge_never_panics,
-   C04.enforceTop_never_panics, canonical_only_panic_site, omitEmpty_total, setDefaultValues_never_panics,
+   C04.enforceTop_never_panics, canonical_never_panics, omitEmpty_total, setDefaultValues_never_panics,
    validate_only_panic_sites, Paths.resolve_never_panics, C11.normalize_never_panics,
    fun fs fuel main svcs name tr s => extends_never_panics fs fuel main svcs name tr s,
    fun fs fuel files inc s => Inc.loadModel_ne_panic fs fuel files inc s⟩
 
 end CV.C01.Pipeline
+
+/-!
+# the stages composed (round 5): `Model/C01Pipeline.lean`
+
+`Pipe.loadModel` chains the stage models in the order and under the option tests of `processRawYaml` /
+`loadYamlModel` / `load`.  The conjunction above becomes a statement about ONE function, for every option set, every
+parameter (tables, environment, working directory, schema verdict), every list of documents:
+a panic outcome of the composition can only be one of the three sites of `validation.Validate` — and with
+`SkipValidation` (the option under which every panic of the earlier rounds was found) there is none at all.
+`ApplyExtends` / processors / `ApplyInclude` enter as a parameter with the hypothesis that they do not panic (their own
+theorems: `extends_never_panics`, `Inc.loadModel_ne_panic`, `alias_resolution_total`).
+-/
+namespace CV.C01.Pipe
+open CV
+
+/-- a panic outcome, if any, is at one of the sites `S` -/
+def PS {α : Type} (S : List String) (o : Out α) : Prop := ∀ s, o = .panic s → s ∈ S
+
+theorem ps_ok {α : Type} (S : List String) (a : α) : PS S (Out.ok a) := by intro s h; cases h
+theorem ps_err {α : Type} (S : List String) (e : String) : PS S (Out.err e : Out α) := by intro s h; cases h
+theorem ps_nil_mono {α : Type} {S : List String} {o : Out α} (h : PS [] o) : PS S o := fun s e => absurd (h s e) (by simp)
+theorem ps_bind {α β : Type} {S : List String} {o : Out α} {f : α → Out β} (ho : PS S o) (hf : ∀ a, PS S (f a)) :
+    PS S (o.bind f) := by
+  intro s h
+  cases o with
+  | ok a => exact hf a s h
+  | err e => cases h
+  | panic t => simp only [Out.bind] at h; cases h; exact ho _ rfl
+
+theorem ps_ofWalker {α : Type} (st : String) (x : C01.Out α) (h : ∀ s, x ≠ .panic s) : PS [] (ofWalker st x) := by
+  intro s e; cases x <;> simp only [ofWalker] at e <;> cases e; exact absurd rfl (h _)
+theorem ps_ofInterp {α : Type} (x : Interp.Out α) (h : ∀ s, x ≠ .panic s) : PS [] (ofInterp x) := by
+  intro s e; cases x <;> simp only [ofInterp] at e <;> cases e; exact absurd rfl (h _)
+theorem ps_ofMerge {α : Type} (st : String) (x : Merge.Out α) (h : ∀ s, x ≠ .panic s) : PS [] (ofMerge st x) := by
+  intro s e; cases x <;> simp only [ofMerge] at e <;> cases e; exact absurd rfl (h _)
+theorem ps_ofShort {α : Type} (x : Short.Out α) (h : ∀ s, x ≠ .panic s) : PS [] (ofShort x) := by
+  intro s e; cases x <;> simp only [ofShort] at e <;> cases e; exact absurd rfl (h _)
+theorem ps_ofC11 {α : Type} (st : String) (x : C11.Out α) (h : ∀ s, x ≠ .panic s) : PS [] (ofC11 st x) := by
+  intro s e; cases x <;> simp only [ofC11] at e <;> cases e; exact absurd rfl (h _)
+theorem ps_ofPaths {α : Type} (x : Paths.Out α) (h : ∀ s, x ≠ .panic s) : PS [] (ofPaths x) := by
+  intro s e; cases x <;> simp only [ofPaths] at e <;> cases e; exact absurd rfl (h _)
+
+def validateSites : List String :=
+  ["validation.init.checkFileObject", "validation.checkPath", "validation.checkDeviceRequest"]
+
+theorem ps_ofValidate (v : Val) : PS validateSites (ofValidate v (Validate.validate v)) := by
+  intro s e
+  cases hv : Validate.validate v with
+  | ok => rw [hv] at e; cases e
+  | err c => rw [hv] at e; cases e
+  | panic t => rw [hv] at e; simp only [ofValidate] at e; cases e; exact Pipeline.validate_only_panic_sites v _ hv
+
+/-- **the glue is lossless**: the `GoVal` ↔ `Val` conversions between the walkers' models and the other owners' models are
+inverse to each other on everything the composition passes through them — every `Val`, and every tree that `convert` +
+`fixEmpty` produce (no nil slice, no `map[interface{}]interface{}`) -/
+theorem conversions_lossless :
+    (∀ v : Val, toVal (ofVal v) = v) ∧
+    (∀ raw g : GoVal, convert raw = .ok g → ofVal (toVal (fixEmpty g)) = fixEmpty g) :=
+  ⟨toVal_ofVal, fun raw g h =>
+    have hw := walkers_establish_schema_input raw g h
+    ofVal_toVal _ hw.2 hw.1⟩
+
+/-- **one document**: `processRawYaml` — convert, interpolate, fixEmpty, extends / include, merge, unicity, schema,
+canonical, omitEmpty, unicity — has no panic outcome, for every option set, parameter set, accumulated `dict` and raw
+document, provided the extends / include stage has none -/
+theorem processRawYaml_never_panics (o : Opts) (P : Params) (hExt : ∀ v s, P.extInc v ≠ .panic s)
+    (dict : Val) (raw : GoVal) (s : String) : processRawYaml o P dict raw ≠ .panic s := by
+  have key : PS [] (processRawYaml o P dict raw) := by
+    unfold processRawYaml
+    refine ps_bind (ps_ofWalker _ _ (convertTop_total raw)) fun kvs0 => ?_
+    refine ps_bind (by split; exact ps_ok _ _; exact ps_ofInterp _ (Pipeline.interpolate_never_panics _ _)) fun cfg1 => ?_
+    refine ps_bind (fun t e => absurd e (hExt _ t)) fun cfg2 => ?_
+    refine ps_bind (ps_ofMerge _ _ (C04.merge_never_panics _ _)) fun d1 => ?_
+    refine ps_bind (ps_ofMerge _ _ (C04.enforceTop_never_panics _)) fun d2 => ?_
+    refine ps_bind (by split; exact ps_ok _ _; split; exact ps_ok _ _; exact ps_err _ _) fun d3 => ?_
+    refine ps_bind (ps_ofShort _ (Pipeline.canonical_never_panics _ _)) fun d4 => ?_
+    refine ps_bind (ps_ofWalker _ _ (omitEmpty_total _ _)) fun d5 => ?_
+    exact ps_ofMerge _ _ (C04.enforceTop_never_panics _)
+  exact fun e => absurd (key s e) (by simp)
+
+/-- **all documents of all files** -/
+theorem loadFiles_never_panics (o : Opts) (P : Params) (hExt : ∀ v s, P.extInc v ≠ .panic s) :
+    ∀ (raws : List GoVal) (dict : Val) (s : String), loadFiles o P dict raws ≠ .panic s
+  | [], dict, s => by simp [loadFiles]
+  | raw :: rest, dict, s => by
+    unfold loadFiles
+    intro e
+    cases h : processRawYaml o P dict raw with
+    | ok d => rw [h] at e; exact loadFiles_never_panics o P hExt rest d s e
+    | err x => rw [h] at e; cases e
+    | panic t => exact processRawYaml_never_panics o P hExt dict raw t h
+
+/-- **the whole model load, full statement**: for every option set, parameter set and list of documents the composition
+answers ok, err, or a panic at one of the three assertion sites of `validation.Validate` (each `schema`-guarded in the
+site review) -/
+theorem loadModel_panics_only_at_validate_sites (o : Opts) (P : Params) (hExt : ∀ v s, P.extInc v ≠ .panic s)
+    (raws : List GoVal) (s : String) (h : loadModel o P raws = .panic s) : s ∈ validateSites := by
+  have key : PS validateSites (loadModel o P raws) := by
+    unfold loadModel
+    refine ps_bind (ps_nil_mono fun t e => absurd e (loadFiles_never_panics o P hExt raws _ t)) fun d0 => ?_
+    refine ps_bind (by split; exact ps_ok _ _; exact ps_nil_mono (ps_ofC11 _ _ (Pipeline.setDefaultValues_never_panics _ _))) fun d1 => ?_
+    refine ps_bind (by split; exact ps_ok _ _; exact ps_ofValidate d1) fun d2 => ?_
+    refine ps_bind (by split; exact ps_nil_mono (ps_ofPaths _ (Paths.resolve_never_panics _ _)); exact ps_ok _ _) fun d3 => ?_
+    simp only
+    split
+    · exact ps_err _ _
+    · split
+      · exact ps_err _ _
+      · split
+        · exact ps_ok _ _
+        · exact ps_bind (ps_nil_mono (ps_ofC11 _ _ (C11.normalize_never_panics _ _ _))) fun kvs => ps_ok _ _
+  exact key s h
+
+/-- **with `SkipValidation`** (schema and `validation.Validate` both off — every tree reaches every other stage
+unchecked): the composition never panics -/
+theorem loadModel_never_panics_skipValidation (o : Opts) (P : Params) (hExt : ∀ v s, P.extInc v ≠ .panic s)
+    (hskip : o.skipValidation = true) (raws : List GoVal) (s : String) : loadModel o P raws ≠ .panic s := by
+  have key : PS [] (loadModel o P raws) := by
+    unfold loadModel
+    refine ps_bind (fun t e => absurd e (loadFiles_never_panics o P hExt raws _ t)) fun d0 => ?_
+    refine ps_bind (by split; exact ps_ok _ _; exact ps_ofC11 _ _ (Pipeline.setDefaultValues_never_panics _ _)) fun d1 => ?_
+    refine ps_bind (by simp only [hskip, if_true]; exact ps_ok _ _) fun d2 => ?_
+    refine ps_bind (by split; exact ps_ofPaths _ (Paths.resolve_never_panics _ _); exact ps_ok _ _) fun d3 => ?_
+    simp only
+    split
+    · exact ps_err _ _
+    · split
+      · exact ps_err _ _
+      · split
+        · exact ps_ok _ _
+        · exact ps_bind (ps_ofC11 _ _ (C11.normalize_never_panics _ _ _)) fun kvs => ps_ok _ _
+  exact fun e => absurd (key s e) (by simp)
+
+/-! non-vacuity: the hypothesis on the parameter is satisfiable (the identity stage), and the exception of the full
+statement is real IN THE COMPOSITION when the schema verdict is not tied to the tree: with a `schemaOK` that accepts
+everything, `gpus: [1]` travels through convert, merge, unicity, canonical, omitEmpty, unicity and reaches
+`checkDeviceRequest`'s `.(map[string]any)` (`configs: {a: 1}` does not get that far: `transformMaybeExternal` rejects it).  (What rules it out in the loader is gojsonschema — `schema_guards_hold`,
+`kindsAt_sound` — plus the fact, not proved, that the stages in between keep the kind at the three patterns.) -/
+example : ∀ (v : Val) (s : String), (fun v => Out.ok v : Val → Out Val) v ≠ .panic s := by intro v s h; cases h
+
+example (c : Interp.Cfg) (pc : Paths.Cfg) :
+    loadModel ⟨true, false, true, true, false⟩
+      { interp := c, omitPats := [], defaults := [], paths := pc, clean := id, env := [], projectName := "p",
+        schemaOK := fun _ => true, extInc := fun v => .ok v, resolveEnv := id }
+      [.map [("services", .map [("s", .map [("gpus", .seq [.int 1])])])]]
+    = .panic "validation.checkDeviceRequest" := by rfl
+
+example (c : Interp.Cfg) (pc : Paths.Cfg) :
+    loadModel ⟨true, true, true, true, false⟩
+      { interp := c, omitPats := [], defaults := [], paths := pc, clean := id, env := [], projectName := "p",
+        schemaOK := fun _ => true, extInc := fun v => .ok v, resolveEnv := id }
+      [.map [("configs", .map [("a", .map [("file", .str "f")])])], .map [("services", .map [("s", .map [("image", .str "i")])])]]
+    = .ok (.map [("configs", .map [("a", .map [("file", .str "f")])]), ("services", .map [("s", .map [("image", .str "i")])])]) := by rfl
+
+end CV.C01.Pipe
